@@ -157,6 +157,7 @@ def nested_template(it, s, a, depth=0):
     if not imp:
         return None
     it2 = Interp(f, opaque=lambda p: is_text_helper(f, p))
+    it2.count_enumerate = True
     it2.frame_counter = it.frame_counter + 5000
     st = s.fork()
     st.events = []
@@ -247,6 +248,7 @@ def display_templates(f, adt, impl_path, prefix="self"):
     for var in f.adts[adt]["variants"]:
         # text-to-text helpers (an escaping function) stay opaque: their image is analysed on its own
         it = Interp(f, opaque=lambda p: is_text_helper(f, p))
+        it.count_enumerate = True
         st = State()
         selfv = evalsum.sym_fields(it, adt, var["name"], prefix)
         res = it.run(impl_path, [("ref", st.alloc(selfv)), ("ref", st.alloc(("sym", "fmt")))], st)
